@@ -16,9 +16,10 @@ class ValueErr(Exception):
 
 
 class History:
-    def __init__(self, dedupe=False):
+    def __init__(self, dedupe=False, xlen=None):
         self.txns = []            # commit order
         self.dedupe = dedupe      # MappingStorage/DemoStorage keep one record per oid and txn
+        self.xlen = xlen or (lambda n: n)   # stored length of n bytes (a wrapper may transform records)
         self.staged = None
 
     # ---- revisions ------------------------------------------------------------------
@@ -78,9 +79,8 @@ class History:
     def lastTransaction(self):
         return self.ltid()
 
-    @staticmethod
-    def stored_size(r):
-        return len(r[1]) if (r[2] is None and r[1] is not None) else 0
+    def stored_size(self, r):
+        return self.xlen(len(r[1])) if (r[2] is None and r[1] is not None) else 0
 
     def history(self, oid, n):
         rs = self.revs(oid)
@@ -92,10 +92,9 @@ class History:
         return [t for t in self.txns
                 if (start is None or start <= t['tid']) and (stop is None or t['tid'] <= stop)]
 
-    @staticmethod
-    def tlen(t):
+    def tlen(self, t):
         return 23 + len(t['u']) + len(t['d']) + len(t['e']) + sum(
-            42 + (len(r[1]) if (r[2] is None and r[1] is not None) else 8) for r in t['recs'])
+            42 + (self.xlen(len(r[1])) if (r[2] is None and r[1] is not None) else 8) for r in t['recs'])
 
     def undoLog(self, first, last):
         out = []
